@@ -53,13 +53,22 @@ def main():
         if not broken: broken.add("<lake build failed without a located error>")
         log("undischarged after build failure: %s" % ", ".join(sorted(broken)))
     # 3. audit
-    audit = audit_axioms(theorems, log, pid) if build_ok else {}
+    good_mods = None
+    if not build_ok and targets:
+        # find the property modules that still build on their own, so that their theorems are still re-checked and audited
+        good_mods = set()
+        for tg in targets:
+            ok1, _, _ = lake_build([tg], Log() if False else (lambda *a: None), clean=False)
+            if ok1: good_mods.add(tg)
+        log("modules that still build: %s" % (", ".join(sorted(good_mods)) or "-"))
+    audit_set = theorems if build_ok else [(t, m) for (t, m) in theorems if good_mods and m in good_mods]
+    audit = audit_axioms(audit_set, log, pid) if audit_set else {}
     for (t, mod) in theorems:
-        if not build_ok:
+        if not build_ok and not (good_mods and mod in good_mods):
             short = t.split(".")[-1]
             ok = not any(b and (b == short or t.endswith("." + b) or b.endswith(short)) for b in broken)
-            # when the build failed we cannot audit; theorems not implicated are still counted as unverified
-            obligations.append({"name": "theorem:" + t, "kind": "theorem", "ok": False if not ok else None, "detail": "build failed; not re-checked"})
+            # theorems of a module that no longer builds: the implicated ones are broken, the others are unverified
+            obligations.append({"name": "theorem:" + t, "kind": "theorem", "ok": False if not ok else None, "detail": "module does not build; not re-checked"})
         else:
             ok, ax = audit.get(t, (False, ["<not audited>"]))
             obligations.append({"name": "theorem:" + t, "kind": "theorem", "ok": ok, "detail": "axioms: " + ", ".join(ax)})
